@@ -125,13 +125,27 @@ Proof.
   - vm_compute. reflexivity.
 Qed.
 
-(* known finding (findings/known_C10.json C10-final-newline): the norm of C10_run_depends_on_norm keeps the blanks
-   after the last line of the run, and it has to: at the end of a file that has no final newline, blanks after
-   the last token make luafmt write a final newline, no blanks make it write none *)
-Theorem C10_end_blanks_refuted :
-  exists cfg r1 r2, f_at_end cfg = true /\ rstrip r1 = rstrip r2 /\ fmt_run cfg r1 <> fmt_run cfg r2.
-Proof. exact fmt_run_end_blanks_refuted. Qed.
-Print Assumptions C10_end_blanks_refuted.
+(* at the end of the file also the blanks that end the last line are layout: the run that ends the file is
+   formatted the same whether or not its last line ends in blanks (strip_line_edges_end = strip_line_edges after
+   removing the trailing blanks of the last line) *)
+Theorem C10_run_depends_on_norm_end : forall cfg r1 r2, f_at_end cfg = true ->
+  strip_line_edges_end (f_at_start cfg) (canon_ws r1) = strip_line_edges_end (f_at_start cfg) (canon_ws r2) ->
+  fmt_run cfg r1 = fmt_run cfg r2.
+Proof. exact fmt_run_depends_on_norm_end. Qed.
+Print Assumptions C10_run_depends_on_norm_end.
+
+Example C10_norm_end_nonvacuous :
+  let r1 := [NL; DASH; DASH; 99] in
+  let r2 := [NL; SP; DASH; DASH; 99; SP; TAB] in
+  strip_line_edges_end false (canon_ws r1) = strip_line_edges_end false (canon_ws r2) /\
+  fmt_run (mk_fcfg false true 2 0) r2 = [NL; DASH; DASH; 99].
+Proof. split; vm_compute; reflexivity. Qed.
+
+(* blanks after the last token of a file without a final newline vanish (before the third fix they became a
+   newline, so that adding trailing spaces to the last line changed the output) *)
+Theorem C10_run_end_only_blanks : forall cfg r, f_at_end cfg = true -> forallb is_sp r = true -> fmt_run cfg r = [].
+Proof. exact fmt_run_end_only_blanks. Qed.
+Print Assumptions C10_run_end_only_blanks.
 
 Example C10_norm_nonvacuous :
   let r1 := [SP; TAB; NL; TAB; SP; DASH; DASH; 99; SP; SP; NL; SP; SP; SP] in
